@@ -138,7 +138,13 @@ void posts_commodities_iterator::reset(journal_t& journal)
 {
   journal_posts.reset(journal);
 
-  std::set<commodity_t *> commodities;
+  // in creation order, not in the (address-dependent) order of the pointers
+  struct by_graph_index {
+    bool operator()(const commodity_t * a, const commodity_t * b) const {
+      return *a->graph_index() < *b->graph_index();
+    }
+  };
+  std::set<commodity_t *, by_graph_index> commodities;
 
   while (const post_t * post = *journal_posts++) {
     commodity_t& comm(post->amount.commodity());
